@@ -225,7 +225,7 @@ func VerifC17JournalHostile() {
 	for len(j) < sector {
 		j = append(j, 0)
 	}
-	nrecs := rt.Choose("records", 2+rt.Tier())
+	nrecs := rt.Choose("records", 2) // thorough widens the header domain, not the number of records
 	var pgs []uint32
 	for i := 0; i < nrecs; i++ {
 		pg := uint32([]int{1, 2, 3, 0, 9}[rt.Choose("record.pgno", 5)])
@@ -300,7 +300,7 @@ func VerifC17WAL() {
 	if len(wal) >= 32 {
 		c1, c2 = binary.BigEndian.Uint32(wal[24:]), binary.BigEndian.Uint32(wal[28:])
 	}
-	maxF := 2 + rt.Tier()
+	maxF := 2 // thorough: two frames after every header variant and both byte orders everywhere
 	if hcase != 0 && rt.Tier() == 0 {
 		maxF = 1
 	}
